@@ -154,7 +154,9 @@ CHECKS = {
              "insert/remove are those of a finite map; size changes by exactly the presence of the key; after ANY sequence "
              "of inserts/removes from the empty map count = number of nodes and all invariants hold; fib(h+2) <= n+1 and "
              "hence 2^(25h) <= (n+2)^36 (height <= 1.44 log2(n+2)) for every tree of fewer than 2^63 nodes; sort is a "
-             "sorted permutation; Queue is FIFO. Tie (shape-exact): the real .cb containers run in the interpreter on "
+             "sorted permutation; Queue is FIFO along EVERY push/pop/top/size/empty history (popped ++ queued = initial ++ pushed, "
+             "queue_history_fifo) and clear resets it; Vector laws for every sequence (push/pop inverses at both ends, "
+             "indexing after push_back/push_front/delete_at, length per operation, find = first index or -1). Tie (shape-exact): the real .cb containers run in the interpreter on "
              "generated operation sequences; after every Map mutation a Cb traversal prints the whole tree with heights, "
              "which must equal the model's tree; Vector/Queue contents and answers vs the list model; the CB_VERIF "
              "alloc/free log is checked for double frees and unreleased removed nodes.",
